@@ -30,6 +30,9 @@ type scenario struct {
 	Rel  []int   `json:"rel"` // completion order of the gated rw ops: 1-based program indices
 	End  string  `json:"end"` // "open": wait for all replies; "eof": EOF right after the last request
 	Src  string  `json:"src"`
+	// HoldMs: the gated reads/writes are held this long before the first one is released (the relative speed of the
+	// read/write workers and the command worker is arbitrary: a close must wait however long they take)
+	HoldMs int `json:"holdms"`
 }
 
 const (
@@ -244,6 +247,9 @@ func runPipeline(t testing.TB, tr *tracer, o srvOpts, sc scenario, salt int, dif
 	if sc.End == "eof" {
 		s.endEOF()
 	}
+	if sc.HoldMs > 0 {
+		time.Sleep(time.Duration(sc.HoldMs) * time.Millisecond)
+	}
 	// release in the prescribed order
 	for _, idx := range sc.Rel {
 		if idx < 1 || idx > len(ops) || !ops[idx-1].rw {
@@ -356,6 +362,14 @@ func pipelineScenarios(t testing.TB, nGen, maxLen int) []scenario {
 			sc.Rel = append(sc.Rel, depth+3)
 			scs = append(scs, sc)
 		}
+	}
+	// very slow reads/writes in front of a pipelined close
+	holds := []int{3500}
+	if vThorough() {
+		holds = []int{3500, 11000}
+	}
+	for _, h := range holds {
+		scs = append(scs, scenario{Src: "slow", End: "open", HoldMs: h, Prog: []pItem{{"W", 1}, {"R", 1}, {"C", 1}, {"M", 1}, {"W", 2}}, Rel: []int{2, 1, 5}})
 	}
 	// the largest legal frame: a WRITE of exactly 256 KiB (packet length field = 262144) in the middle of a pipeline
 	for _, end := range []string{"open", "eof"} {
